@@ -31,6 +31,14 @@ MODELS = {
     "TreeReduce:all-trees": ("TreeReduce", 'SPECIFICATION TRSpec\nINVARIANT TreeIndependent\nCHECK_DEADLOCK FALSE\n'
                              'CONSTANTS TRKinds = {"sum", "nansum", "max", "min", "any", "all", "mean", "nanmean", "var", "argmax"}\n'
                              'TRLen = 5\nTRVals = {0, 1, 3, 99}\nTRSplit = 3\n', "holds"),
+    "Rewrites:sound-2d": ("Rewrites", 'SPECIFICATION RWSpec\nINVARIANT RulePreserves\nCHECK_DEADLOCK FALSE\n'
+                          'CONSTANTS RWShape <- MCShape2\nRWMutant = "none"\n', "holds"),
+    "Rewrites:sound-3d": ("Rewrites", 'SPECIFICATION RWSpec\nINVARIANT RulePreserves\nCHECK_DEADLOCK FALSE\n'
+                          'CONSTANTS RWShape <- MCShape3\nRWMutant = "none"\n', "holds"),
+    "Rewrites:transpose-axis-mutant": ("Rewrites", 'SPECIFICATION RWSpec\nINVARIANT RulePreserves\nCHECK_DEADLOCK FALSE\n'
+                                       'CONSTANTS RWShape <- MCShape3\nRWMutant = "transpose-axis"\n', "violates:RulePreserves"),
+    "Rewrites:reduce-axis-mutant": ("Rewrites", 'SPECIFICATION RWSpec\nINVARIANT RulePreserves\nCHECK_DEADLOCK FALSE\n'
+                                    'CONSTANTS RWShape <- MCShape2\nRWMutant = "reduce-axis"\n', "violates:RulePreserves"),
     "MapBlocksInfo:exact": ("MC_MapBlocksInfo", 'SPECIFICATION MBSpec\nINVARIANT SeenOnGrid\nINVARIANT Exact\nCHECK_DEADLOCK FALSE\n'
                             'CONSTANTS MBLayouts <- MCLayouts\nMBRecs <- MCRecs\n', "holds"),
 }
